@@ -114,8 +114,10 @@ func (memPool *MemPool) AddTransaction(ctx context.Context, tx *wire.MsgTx,
 			// Append conflicting
 			// It is possible tx conflict on more than one input and we don't want duplicates in
 			// the conflicts list.
-			appendIfNotContained(conflicts, list)
-			list = append(list, *txid)
+			conflicts = appendIfNotContained(conflicts, list, txid)
+			if !containsHash(list, txid) {
+				memPool.inputs[*outpointHash] = append(list, *txid)
+			}
 		} else {
 			// Create new list with only this tx hash
 			list := []bitcoin.Hash32{*txid}
@@ -126,21 +128,27 @@ func (memPool *MemPool) AddTransaction(ctx context.Context, tx *wire.MsgTx,
 	return conflicts, trusted, true
 }
 
-// Appends the items in add to list if they are not already in list
-func appendIfNotContained(list []bitcoin.Hash32, add []bitcoin.Hash32) {
+// Returns list with the items in add appended if they are not already in list and are not exclude.
+func appendIfNotContained(list []bitcoin.Hash32, add []bitcoin.Hash32,
+	exclude *bitcoin.Hash32) []bitcoin.Hash32 {
 	for _, addHash := range add {
-		found := false
-		for _, hash := range list {
-			if hash == addHash {
-				found = true
-				break
-			}
+		if addHash == *exclude {
+			continue
 		}
-
-		if !found {
+		if !containsHash(list, &addHash) {
 			list = append(list, addHash)
 		}
 	}
+	return list
+}
+
+func containsHash(list []bitcoin.Hash32, hash *bitcoin.Hash32) bool {
+	for _, item := range list {
+		if item == *hash {
+			return true
+		}
+	}
+	return false
 }
 
 // Removes a tx hash from the mempool
@@ -168,14 +176,16 @@ func (memPool *MemPool) removeTransaction(hash bitcoin.Hash32) bool {
 			outpointHash := outpoint.OutpointHash()
 			otherHashes, exists := memPool.inputs[*outpointHash]
 			if exists { // It should always exist
-				if len(otherHashes) > 1 {
-					// Remove this outpoint hash from the list
-					for i, otherHash := range otherHashes {
-						if otherHash.Equal(outpointHash) {
-							otherHashes = append(otherHashes[:i], otherHashes[i+1:]...)
-							break
-						}
+				// Remove this tx from the list. Build a new list so a caller iterating over the
+				// previous one is not affected.
+				remaining := make([]bitcoin.Hash32, 0, len(otherHashes))
+				for _, otherHash := range otherHashes {
+					if !otherHash.Equal(&hash) {
+						remaining = append(remaining, otherHash)
 					}
+				}
+				if len(remaining) > 0 {
+					memPool.inputs[*outpointHash] = remaining
 				} else {
 					delete(memPool.inputs, *outpointHash)
 				}
